@@ -89,6 +89,40 @@ def nilsimsa (target : Nat) (data : List Nat) : List Nat :=
 def nilsimsaSeq (target : Nat) (pieces : List (List Nat)) : List Nat :=
   digest (pieces.foldl (update (maketran target)) St.init)
 
+/-! ### the object across several messages (`digest()` ends with `self.reset()`) -/
+
+/-- `digest()` as a method of the object: the 32 bytes and the object afterwards — `reset()` clears the counter, the
+    accumulators AND the four-byte window -/
+def digestObj (s : St) : List Nat × St := (digest s, St.init)
+
+/-- `__call__(data)`: `reset()`, `update(data)`, `digest()` — on an object in any state -/
+def callObj (tran : List Nat) (_s : St) (data : List Nat) : List Nat × St := digestObj (update tran St.init data)
+
+/-- operations on a Nilsimsa object as the `nilsimsa.seqs` lines write them -/
+inductive Op
+  | new
+  | u (data : List Nat)
+  | d
+  | r
+  | c (data : List Nat)
+
+/-- one operation: the object afterwards and what it returned (`u`: nothing; the line observes `count`) -/
+def stepOp (tran : List Nat) (s : St) : Op → St × Option (List Nat)
+  | .new => (St.init, none)
+  | .u data => (update tran s data, none)
+  | .d => ((digestObj s).2, some (digestObj s).1)
+  | .r => (St.init, none)
+  | .c data => ((callObj tran s data).2, some (callObj tran s data).1)
+
+/-- messages hashed one after the other on ONE object, each fed piecewise and finished by `digest()`: the digests and
+    the object afterwards -/
+def runMsgs (tran : List Nat) : St → List (List (List Nat)) → List (List Nat) × St
+  | s, [] => ([], s)
+  | s, pieces :: rest =>
+    let r := digestObj (pieces.foldl (update tran) s)
+    let t := runMsgs tran r.2 rest
+    (r.1 :: t.1, t.2)
+
 /-- `distance(h1,h2) = Bits(h1).hd(h2)` -/
 def distance (h1 h2 : List Nat) : Except Err Nat := do
   let a ← Bits.ofBytes h1
